@@ -1,6 +1,7 @@
 import RattrDriver.C03
 import RattrDriver.C06
 import RattrModel.ResultsProject
+import RattrModel.Provenance
 
 namespace Rattr.Driver.C14
 open Lean Rattr Rattr.Driver Rattr.Results Rattr.ResProject
@@ -80,5 +81,55 @@ def handle (payload : Json) : R Json := do
       | .never => outs := outs ++ [Json.mkObj [("outcome", "never")]]; stop := true
   return Json.mkObj [("resolution", resolution), ("sizes", jList ((modules p0).map fun m => Json.num m.fns.length)),
                      ("rounds", jList outs)]
+
+/-! op `results_located`: the LOCATED engine (`RattrModel.Provenance.generateL`) over one store, `rounds` times.
+A name is `[full, base, loc]`, `loc` a number the harness assigns to each distinct (file, line, column). -/
+
+open Rattr.Provenance in
+def parseLNames (j : Json) : R (List (LName Nat)) := do
+  (← asArr j).mapM fun p => do
+    match (← asArr p) with
+    | [a, b, l] => return { n := { full := str (← asStr a), base := str (← asStr b) }, loc := (← asNat l) }
+    | _ => throw "bad located name"
+
+open Rattr.Provenance in
+def lnamesJson (l : List (LName Nat)) : Json :=
+  jList (l.map (fun x => Json.arr #[Json.str x.n.full.toS, Json.str x.n.base.toS, Json.num x.loc]))
+
+open Rattr.Provenance in
+def lsetsJson (k : Key) (ir : LSets Nat) : Json :=
+  Json.mkObj [("key", Json.num k), ("gets", lnamesJson ir.gets), ("sets", lnamesJson ir.sets), ("dels", lnamesJson ir.dels)]
+
+open Rattr.Provenance in
+def handleLocated (payload : Json) : R Json := do
+  let fnsJ ← asArr (← field payload "fns")
+  let mut fns : List FnInfo := []
+  let mut store0 : List (LSets Nat) := []
+  for f in fnsJ do
+    let iface := C03.ifaceStr (← C03.parseIface (← field f "iface"))
+    let calls ← (← asArr (← field f "calls")).mapM C03.parseCall
+    fns := fns ++ [{ iface := iface, calls := calls }]
+    store0 := store0 ++ [⟨← parseLNames (← field f "gets"), ← parseLNames (← field f "sets"),
+                          ← parseLNames (← field f "dels")⟩]
+  let resTab ← (← asArr (← field payload "resolve")).mapM fun p => do
+    match (← asArr p) with
+    | [c, k] => return ((← asNat c), (match k with | .null => none | _ => k.getNat?.toOption))
+    | _ => throw "bad resolve entry"
+  let order ← (← asArr (← field payload "order")).mapM asNat
+  let rounds ← asNat (fieldD payload "rounds" (Json.num 1))
+  let P : Prog := { fns := fns, resolve := fun c => (resTab.lookup c).join }
+  let n := fns.length
+  let mut σ : LStore Nat := fun k => (store0[k]?).getD ⟨[], [], []⟩
+  let mut outs : List Json := []
+  for _ in [0:rounds] do
+    match generateL P order σ with
+    | .outOfFuel => return Json.mkObj [("outcome", "outOfFuel")]
+    | .never => return Json.mkObj [("outcome", "never")]
+    | .ok (rs, σ') =>
+      σ := σ'
+      outs := outs ++ [Json.mkObj [
+        ("results", jList (rs.map (fun (k, ir) => lsetsJson k ir))),
+        ("store", jList ((List.range n).map (fun k => lsetsJson k (σ' k))))]]
+  return Json.mkObj [("outcome", "ok"), ("rounds", jList outs)]
 
 end Rattr.Driver.C14
